@@ -51,7 +51,7 @@ CHECKS = {
                            st(200, race=True, run="TestConcurrentReaders", timeout=600),
                            st(1200, pkg="libow", overlay=dict(map_main={"libopenwater": "libow"}), run="TestEntryPointInProcess", timeout=600),
                            st(150, pkg="libow", overlay=dict(map_main={"libopenwater": "libow"}), run="TestEntryPointThroughCABI", timeout=600)]),
-        thorough=dict(stages=[st(0, fuzz="FuzzLockStepGoVsC", fuzztime="60s", timeout=600), st(150000, shards=10, run="TestLockStepGoVsC", timeout=3000),
+        thorough=dict(stages=[st(0, fuzz="FuzzLockStepGoVsC", fuzztime="60s", timeout=600), st(90000, shards=10, run="TestLockStepGoVsC", timeout=3000),
                               st(6000, shards=3, race=True, run="TestConcurrentReaders", timeout=3000),
                               st(40000, shards=3, pkg="libow", overlay=dict(map_main={"libopenwater": "libow"}), run="TestEntryPointInProcess", timeout=3000),
                               st(30000, shards=3, pkg="libow", overlay=dict(map_main={"libopenwater": "libow"}), run="TestEntryPointThroughCABI", timeout=3000)]),
@@ -64,7 +64,7 @@ CHECKS = {
              "Non-trivial = N>=2 and (P<N or B<N or table lengths differ between cells); distinct = (model,N,P,B,T,layout,parameters)",
         assumptions=["kernels are exercised inside their documented/physical parameter domain (simref.DrawCell); outside it some kernels panic in the cell goroutine"],
         quick=dict(stages=[st(2500, timeout=900)]),
-        thorough=dict(stages=[st(0, fuzz="FuzzVectorisedRun", fuzztime="60s", timeout=600), st(25000, shards=16, timeout=3500)]),
+        thorough=dict(stages=[st(0, fuzz="FuzzVectorisedRun", fuzztime="60s", timeout=600), st(12000, shards=16, timeout=3500)]),
     ),
     "C06": dict(
         require={'multiple-splits': 0.1, '__nontrivial__': 0.2},
